@@ -123,6 +123,49 @@ fn family_match(r: &mut StdRng, scn: usize, fam: &str, n_req: usize, out: &mut V
   Ok(n)
 }
 
+/// C14: the same battery of queries and filters before and after compaction; both runs are judged
+/// by the absolute oracle (hence must agree with each other).
+fn family_compact(r: &mut StdRng, scn: usize, n_req: usize, out: &mut Vec<Value>) -> Result<usize> {
+  let mut knobs = Knobs::default();
+  knobs.max_commits = 4;
+  let b = build_index(r, &knobs, "fs")?;
+  let cfg = GenCfg { depth: 2, boosts: false, scoring_wrappers: false, filters_in_bool: true, expansions: true, nested_filters: true };
+  let battery: Vec<(Q, Option<F>)> = (0..n_req)
+    .map(|i| {
+      if i % 2 == 0 {
+        let fd = r.gen_range(1..=3);
+        (Q::All, Some(gen_filter(r, fd, true, "")))
+      } else {
+        let depth = r.gen_range(0..=cfg.depth);
+        (gen_query(r, depth, &cfg), if chance(r, 1, 4) { Some(gen_filter(r, 1, true, "")) } else { None })
+      }
+    })
+    .collect();
+  let mut total = 0;
+  for phase in 0..2 {
+    if phase == 1 {
+      b.idx.compact()?;
+    }
+    let reader = b.idx.reader()?;
+    let mut dict = Dict::new();
+    let corpus = corpus_event(&b, &reader, scn, &mut dict)?;
+    let n_slots = corpus["docs"].as_array().map(|a| a.len()).unwrap_or(0);
+    let mut searches = Vec::new();
+    for (q, filt) in battery.iter() {
+      let req = base_request(q, filt.as_ref(), n_slots + 5, "bm25");
+      let res = run_search(&reader, &req);
+      let filters: Vec<Value> = filt.iter().map(|f| abstract_filter(f, &mut dict)).collect();
+      searches.push(json!({
+        "ev": "search", "check": "match", "prop": "C14", "note": if phase == 0 { "before compaction" } else { "after compaction" },
+        "q": abstract_query(&b.schema, q, &default_fields(), true, 1.0, &mut dict),
+        "filters": filters, "obs": obs_ids(&res), "req": req.to_string(),
+      }));
+    }
+    total += emit_scenario(out, scn, if phase == 0 { "compact-before" } else { "compact-after" }, "fs", &b, &dict, corpus, searches);
+  }
+  Ok(total)
+}
+
 /// Order-preserving integer image of an f32 (fits TLC's 32-bit integers).
 pub fn sbits(x: f32) -> i64 {
   let b = x.to_bits();
@@ -438,6 +481,7 @@ pub fn main(args: &Args) -> Result<()> {
       "query" | "filter" => family_match(&mut r, scn, &fam, n_req, &mut evs)?,
       "rank" => family_rank(&mut r, scn, n_req, &mut evs)?,
       "paging" => family_paging(&mut r, scn, n_req, &mut evs)?,
+      "compact" => family_compact(&mut r, scn, n_req, &mut evs)?,
       "relate" => family_relate(&mut r, scn, n_req, &mut evs)?,
       "vector" => crate::vector::family_vector(&mut r, scn, n_req, &mut evs)?,
       other => anyhow::bail!("unknown search family {other}"),
